@@ -46,8 +46,8 @@ type c19Case struct {
 	Rotated bool `json:"rotated,omitempty"`
 }
 
-var c19ClientPeers = []string{"A_leaf", "A_via_intermediate", "self_signed", "B_leaf", "A_expired", "A_expired_90s_ago", "A_not_yet_valid", "A_valid_in_90s", "A_server_auth_only", "none"}
-var c19ServerPeers = []string{"A_leaf", "A_via_intermediate", "A_other_name", "self_signed", "B_leaf", "A_expired", "A_expired_90s_ago", "A_valid_in_90s", "A_client_auth_only"}
+var c19ClientPeers = []string{"A_leaf", "A_via_intermediate", "self_signed", "B_leaf", "host_trusted_CA_leaf", "A_expired", "A_expired_90s_ago", "A_not_yet_valid", "A_valid_in_90s", "A_server_auth_only", "none"}
+var c19ServerPeers = []string{"A_leaf", "A_via_intermediate", "A_other_name", "self_signed", "B_leaf", "host_trusted_CA_leaf", "A_expired", "A_expired_90s_ago", "A_valid_in_90s", "A_client_auth_only"}
 
 type c19CA struct {
 	cert *x509.Certificate
@@ -71,6 +71,25 @@ func c19PEMCert(der []byte) []byte {
 func c19PEMKey(k any) []byte {
 	b, _ := x509.MarshalPKCS8PrivateKey(k)
 	return pem.EncodeToMemory(&pem.Block{Type: "PRIVATE KEY", Bytes: b})
+}
+
+// c19HostCA plays a public CA: the process's system trust store consists of exactly this certificate. The environment is
+// set in init(), before anything can have loaded the system pool (it is loaded once per process).
+var c19HostCA *c19CA
+
+func init() {
+	dir, err := os.MkdirTemp("", "vf-c19-host-")
+	if err != nil {
+		panic(err)
+	}
+	c19HostCA = c19NewCA("vf host-trusted public CA", 424242, nil)
+	f := filepath.Join(dir, "host-ca.pem")
+	if err := os.WriteFile(f, c19HostCA.pem, 0o600); err != nil {
+		panic(err)
+	}
+	_ = os.MkdirAll(filepath.Join(dir, "certs"), 0o700)
+	_ = os.Setenv("SSL_CERT_FILE", f)
+	_ = os.Setenv("SSL_CERT_DIR", filepath.Join(dir, "certs"))
 }
 
 func c19NewCA(name string, serial int64, parent *c19CA) *c19CA {
@@ -185,6 +204,9 @@ func c19PeerCred(p *c19PKI, c c19Case) (cred *tls.Certificate, chainOK bool) {
 		return mk(p.caA, c19LeafOpt{eku: both, dns: name, selfSigned: true}), false
 	case "B_leaf":
 		return mk(p.caB, c19LeafOpt{eku: both, dns: name}), false
+	case "host_trusted_CA_leaf":
+		// issued, for the right name, by a CA of the HOST's trust store (a public CA) - not the configured one
+		return mk(c19HostCA, c19LeafOpt{eku: both, dns: name}), false
 	case "A_expired":
 		return mk(p.caA, c19LeafOpt{eku: both, dns: name, notBefore: time.Now().Add(-48 * time.Hour), notAfter: time.Now().Add(-24 * time.Hour)}), false
 	case "A_expired_90s_ago":
@@ -412,7 +434,7 @@ func c19Nontrivial(c c19Case) bool {
 		return false
 	}
 	switch c.Peer {
-	case "self_signed", "B_leaf", "A_expired", "A_expired_90s_ago", "A_valid_in_90s", "A_not_yet_valid", "A_server_auth_only", "A_client_auth_only", "A_other_name":
+	case "self_signed", "B_leaf", "host_trusted_CA_leaf", "A_expired", "A_expired_90s_ago", "A_valid_in_90s", "A_not_yet_valid", "A_server_auth_only", "A_client_auth_only", "A_other_name":
 		return !c.Hint
 	}
 	return false
